@@ -1521,7 +1521,11 @@ class AllConnGraph(nx.DiGraph):
             # also set the input if it's absolute
             if node[0] == 'i' and node[1] in model._var_abs2meta['input']:
                 try:
-                    tval = self.convert_set(val, tgt_units, tgt_units, (),  units)
+                    if tgt_units is None:
+                        # a unitless input holds the source's number: same value as before setup
+                        tval = sval
+                    else:
+                        tval = self.convert_set(val, tgt_units, tgt_units, (),  units)
                 except Exception as err:
                     self._collect_error(f"{system.msginfo}: Can't set value of "
                                         f"'{self.msgname(node)}': {str(err)}")
